@@ -208,6 +208,39 @@ func C14(c *fw.Ctx) {
 			run("nested-literals", model.Arr(P(a.Mk()), model.Obj([]string{"z", "y"}, []*model.N{P(b.Mk()), P(a.Mk())}), P(b.Mk())))
 		}
 	}
+	// declarations with several initialisers, clauses of statements, assignment probes
+	for _, a := range small {
+		for _, b := range small {
+			if !c.Mine() {
+				continue
+			}
+			progs := map[string][]*model.N{}
+			tag = 0
+			progs["var-list"] = []*model.N{model.VarList([]string{"d1", "d2", "d3"}, []*model.N{P(a.Mk()), P(b.Mk()), P(a.Mk())}), model.Print(model.Arr(model.Id("d1"), model.Id("d2"), model.Id("d3")))}
+			tag = 0
+			progs["for-clauses"] = []*model.N{model.For(model.Var("i", P(model.Num(0))), model.Bin("<", P(model.Id("i")), P(model.Num(2))), model.Asg("i", model.Bin("+", P(model.Id("i")), P(model.Num(1)))), model.Block(model.Print(P(a.Mk()))))}
+			tag = 0
+			progs["if-condition"] = []*model.N{model.If(model.Log(model.KwOr, P(a.Mk()), P(b.Mk())), model.Print(P(model.Str("then"))), model.Print(P(model.Str("else"))))}
+			tag = 0
+			progs["return-value"] = []*model.N{model.Fun("rr", nil, model.Return(model.Arr(P(a.Mk()), P(b.Mk())))), model.Print(model.CallN("rr"))}
+			tag = 0
+			progs["nested-call-args"] = []*model.N{model.Print(model.CallN("g2", model.CallN("g2", P(a.Mk()), P(b.Mk())), model.CallN("g2", P(b.Mk()), P(a.Mk()))))}
+			tag = 0
+			progs["chained-index"] = []*model.N{model.Var("mm", model.Arr(model.Arr(model.Num(1), model.Num(2)), model.Arr(model.Num(3), model.Num(4)))), model.Print(model.Idx(model.Idx(P(model.Id("mm")), P(model.Num(1))), P(model.Num(0)))),
+				model.ExprS(model.IAsg(model.Idx(P(model.Id("mm")), P(model.Num(0))), P(model.Num(1)), P(a.Mk()))), model.Print(model.Id("mm"))}
+			progs["assignment-probes"] = []*model.N{
+				model.Print(model.Bin("+", model.Grp(model.Asg("w", model.Bin("+", model.Id("w"), model.Num(1)))), model.Grp(model.Asg("w", model.Bin("*", model.Id("w"), model.Num(10)))))),
+				model.Print(model.Id("w")),
+				model.Print(model.Arr(model.Asg("w", model.Num(3)), model.Id("w"), model.Asg("w", model.Bin("+", model.Id("w"), model.Num(1))), model.Id("w"))),
+				model.Print(model.CallN("g2", model.Asg("w", model.Num(7)), model.Bin("*", model.Id("w"), model.Num(2)))),
+				model.ExprS(model.IAsg(model.Id("arr"), model.Grp(model.Asg("w", model.Num(1))), model.Bin("+", model.Id("w"), model.Num(100)))), model.Print(model.Id("arr")),
+				model.Print(model.Log(model.KwAnd, model.Grp(model.Asg("w", a.Mk())), model.Grp(model.Asg("w", model.Num(99))))), model.Print(model.Id("w")),
+			}
+			for name, st := range progs {
+				judgeAllSchedules(c, append(c14Prelude(), st...), "stmt|"+name)
+			}
+		}
+	}
 	// depth 2: (□ op1 □) op2 (□ op3 □), probe values 0/1
 	inner := []string{"+", model.KwOr, model.KwAnd, "==", "<", "*"}
 	bits := []float64{0, 1}
